@@ -342,7 +342,7 @@ Section PlanProofs.
   Proof. unfold rotate. rewrite Permutation_app_comm. now rewrite firstn_skipn. Qed.
 
   Section Model.
-    Hypothesis Hs : sorted_strict g.
+    Hypothesis Hs : sorted_weak g.
     Hypothesis Hk : forall k s, ks_lookup keyspaces k = Some s -> nts_keys_ok s.
     Variables (cho : nat -> nat -> nat) (shuf : nat -> list N -> list N).
     Hypothesis Hshuf : forall site l, Permutation (shuf site l) l.
